@@ -128,14 +128,16 @@ Theorem C02_standing_items : forall msg,
 Proof. intro msg. split; [exact (question_at_of msg)|exact (record_at_of msg)]. Qed.
 
 (* a message of 12..65535 octets whose header counts are those of the questions and records that
-   stand in it back to back is parsed completely, into exactly those items *)
+   stand in it back to back is parsed completely, into exactly those items ([qstands]/[rstands]: each
+   item of the lists is the item of the question / record standing between consecutive offsets) *)
 Theorem C02_whole_message_parsed : forall msg nq an ns ar (qs : list squestion) (rs : list srecord) e1 e2,
   lenN msg <= 65535 -> 12 <= lenN msg ->
   questions_stand msg 12 qs e1 -> records_stand msg e1 rs e2 ->
   lenN qs = nq -> lenN rs = an + ns + ar -> nq <= 65535 -> an <= 65535 -> ns <= 65535 -> ar <= 65535 ->
   exists qends rends,
     parsed msg nq an ns ar (qitems 12 qs qends) (ritems e1 rs rends) e1 e2 /\
-    lenN (qitems 12 qs qends) = nq /\ lenN (ritems e1 rs rends) = an + ns + ar.
+    lenN (qitems 12 qs qends) = nq /\ lenN (ritems e1 rs rends) = an + ns + ar /\
+    qstands msg 12 qs qends /\ rstands msg e1 rs rends.
 Proof. exact message_parsed. Qed.
 
 (* and the typed decoder run at the data offset of a standing record returns its value and stops
